@@ -437,6 +437,41 @@ pub fn run(ctx: &Ctx) {
         }
       });
       ctx.subspace("legal holidays: membership of every civil date 2000..2030", done, (b - a) as u64);
+      // membership outside the table's years: a lookup that scans the packed text can only be fooled by digits that occur in
+      // it, so every 8-character window of the text (at any offset, not only at record starts) that reads as an existing
+      // civil date is looked up; plus the first and last day of every month of 0001..9999
+      let bytes = LEGAL_HOLIDAY_DATA.as_bytes();
+      let mut cand: Vec<usize> = Vec::new();
+      for i in 0..bytes.len().saturating_sub(7) {
+        if bytes[i..i + 8].iter().all(|c| c.is_ascii_digit()) {
+          let num = |a: usize, b: usize| -> i64 { std::str::from_utf8(&bytes[a..b]).unwrap().parse().unwrap() };
+          if let Some(o) = civ.ord(num(i, i + 4) as i32, num(i + 4, i + 6) as u8, num(i + 6, i + 8) as u8) {
+            cand.push(o);
+          }
+        }
+      }
+      for y in 1..=9999i32 {
+        for m in 1..=12u8 {
+          let o = civ.ord(y, m, 1).unwrap();
+          cand.push(o);
+          cand.push(o + civ.days_in_month(y, m) as usize - 1);
+        }
+      }
+      cand.sort();
+      cand.dedup();
+      let done = par_chunks(ctx, 0, cand.len(), 256, |x, y, l| {
+        for k in x..y {
+          let d = civ.date(cand[k]);
+          l.transitions += 1;
+          let want = recs.iter().any(|r| (r.y, r.m, r.d) == d);
+          let g = guard(|| LegalHoliday::from_ymd(d.0 as isize, d.1 as usize, d.2 as usize).is_some());
+          match g {
+            Ok(p) if p == want => {}
+            other => ctx.violation("holiday_lookup", fmt_ymd(d), format!("found={:?}, in the framed table: {}", other, want), vec!["hdate".into(), cand[k].to_string()]),
+          }
+        }
+      });
+      ctx.subspace(&format!("legal holidays: membership of every civil date whose 8 digits occur anywhere in the packed table text, and of the first and last day of every month of 0001..9999 ({} dates)", cand.len()), done, cand.len() as u64);
     }
   }
   if ctx.primary() {
